@@ -73,8 +73,20 @@ def run_map_case(case):
     Rs, ps, ts = tagged(n)
     R2, p2, _ = tagged(n, k=1)
     timed = case["timed"]
-    a = common.make_traj(Rs, ps, ts if timed else None, case["storage"])
-    b = common.make_traj(R2, p2, ts if timed else None, case["storage"])
+    if case["storage"] == "int":
+        # positions handed over as an integer array (waypoint grid): the
+        # constructor keeps the dtype; the second trajectory is fractional
+        from evo.core.trajectory import PosePath3D, PoseTrajectory3D
+        ps = [np.round(p) for p in ps]
+        p2 = [p + 0.37 for p in p2]
+        qa = np.array([geom.rot_to_quat_wxyz(R) for R in Rs])
+        ia = np.array(ps).astype(np.int64)
+        a = PoseTrajectory3D(ia, qa, np.array(ts)) if timed else \
+            PosePath3D(ia, qa)
+        b = common.make_traj(R2, p2, ts if timed else None, "quat")
+    else:
+        a = common.make_traj(Rs, ps, ts if timed else None, case["storage"])
+        b = common.make_traj(R2, p2, ts if timed else None, case["storage"])
     pm = plot.PlotMode[mode]
     msgs = []
     fig = plt.figure()
@@ -338,6 +350,11 @@ def all_cases(thorough):
                                   "markers": True, "axis_scale": 0.1,
                                   "edges": True, "unit": unit,
                                   "storage": "se3+read"}))
+        for flip in (False, True):
+            cases.append(("map", {"mode": mode, "n": 3, "timed": flip,
+                                  "markers": True, "axis_scale": 0.1,
+                                  "edges": True, "unit": "m",
+                                  "storage": "int"}))
         for count in (1, 2, 3):
             for container in ("dict", "list", "single"):
                 cases.append(("multi", {"mode": mode, "n": 3, "count": count,
